@@ -35,7 +35,7 @@ def load_findings():
     return json.load(open(p, encoding='utf-8')).get('findings', [])
 
 
-def build(prop, tier, seed, workdir, refine=(), opaque=(), external=()):
+def build(prop, tier, seed, workdir, refine=(), opaque=(), external=(), behavioural=()):
     """generate the Verus file for a property; returns (info, obligations, gen_path)"""
     from . import cells
     cfg = PROPS[prop]
@@ -50,7 +50,26 @@ def build(prop, tier, seed, workdir, refine=(), opaque=(), external=()):
         t, o = lemmas.load(os.path.join(VERIF, 'lemmas', name + '.rs'), name.upper())
         texts.append(t)
     # first pass without generated cells to learn keycodes / layouts
-    pre = gen.generate(REPO, os.path.join(VERIF, 'contracts'), opaque=opaque, external=external)
+    pre = gen.generate(REPO, os.path.join(VERIF, 'contracts'), opaque=opaque, external=external, behavioural=behavioural)
+    table_hints = None
+    if pre.needs_table_hints:
+        from . import native
+        try:
+            table_hints = native.hints(pre, 'tables')
+        except native.NativeError:
+            table_hints = None
+    layout_hints = None
+    if pre.needs_layout_hints:
+        from . import native
+        layout_hints = {}
+        try:
+            b = native.build(pre)
+            for lname in set(pre.needs_layout_hints):
+                rc, out, err = native.run(b, ['layout-table', lname])
+                if rc == 0:
+                    layout_hints[lname] = json.loads(out)
+        except native.NativeError:
+            pass
     aux = {}
     for g in cfg.get('cellgens', []):
         t, o, a = getattr(cells, g)(pre, prop, tier, VERIF, refine)
@@ -59,7 +78,7 @@ def build(prop, tier, seed, workdir, refine=(), opaque=(), external=()):
         aux.update(a or {})
     os.makedirs(workdir, exist_ok=True)
     gen_path = os.path.join(workdir, 'gen.rs')
-    info = gen.generate(REPO, os.path.join(VERIF, 'contracts'), texts, out_path=gen_path, opaque=opaque, external=external)
+    info = gen.generate(REPO, os.path.join(VERIF, 'contracts'), texts, out_path=gen_path, opaque=opaque, external=external, table_hints=table_hints, layout_hints=layout_hints, behavioural=behavioural)
     info.aux = aux
     return info, obligations, gen_path
 
@@ -266,8 +285,9 @@ def main(argv=None):
     # ------------------------------------------------------------------ deductive verdict
     try:
         external = set()
-        for attempt in range(6):
-            info, lemma_obs, gen_path = build(prop, tier, seed, workdir, opaque=tuple(sorted(opaque)), external=tuple(sorted(external)))
+        behavioural = set()
+        for attempt in range(7):
+            info, lemma_obs, gen_path = build(prop, tier, seed, workdir, opaque=tuple(sorted(opaque)), external=tuple(sorted(external)), behavioural=tuple(sorted(behavioural)))
             R = relevant_obligations(prop, info, lemma_obs)
             res = verus.run(gen_path, info, seed=seed, multiple_errors=50)
             mine, tool, other = classify(prop, res.failures, R, info)
@@ -275,6 +295,12 @@ def main(argv=None):
             if not tool:
                 break
             off = offending_functions(tool, info)
+            # a layout whose textual copy the verifier rejects first gets a behavioural denotation; only if that is rejected
+            # too does it become opaque
+            lay = set(k for k in off if k.startswith('KeyboardLayout for ') and 'AnyLayout' not in k and k not in behavioural and k not in opaque)
+            if lay:
+                behavioural |= lay
+                continue
             new = off - opaque
             again = (off & opaque) - external
             if not new and not again:
@@ -287,7 +313,7 @@ def main(argv=None):
         coarse_failed = sorted(set(R[f.oid]['unit'] for f in mine if f.oid in R and R[f.oid]['kind'] == 'coarse' and f.kind == 'semantic'))
         refined = False
         if coarse_failed and tier != 'thorough' and not tool:
-            info, lemma_obs, gen_path = build(prop, tier, seed, workdir, refine=tuple(coarse_failed), opaque=tuple(sorted(opaque)), external=tuple(sorted(external)))
+            info, lemma_obs, gen_path = build(prop, tier, seed, workdir, refine=tuple(coarse_failed), opaque=tuple(sorted(opaque)), external=tuple(sorted(external)), behavioural=tuple(sorted(behavioural)))
             R = relevant_obligations(prop, info, lemma_obs)
             res = verus.run(gen_path, info, seed=seed, multiple_errors=50)
             mine, tool, other = classify(prop, res.failures, R, info)
